@@ -29,20 +29,23 @@ def shards(tier, seed):
 
 
 def _plain_shards(tier, seed):
-    return [{"fn": fn, "part": p, "parts": PARTS} for fn in ("init", "ping", "account") for p in range(PARTS)] + [{"fn": fn, "sticky": True} for fn in ("init", "ping", "account")]
+    return ([{"fn": fn, "part": p, "parts": PARTS} for fn in ("init", "ping", "account") for p in range(PARTS)] + [{"fn": fn, "sticky": True} for fn in ("init", "ping", "account")]
+            + [{"fn": "cross", "cross": True}])
 
 
 def run(shard, rec, tier, seed):
     import random as real_random
 
-    enum = hr.Sticky(0) if shard.get("sticky") else hr.Enumerator(shard["part"], shard["parts"])
+    enum = hr.Sticky(0) if shard.get("sticky") else hr.Enumerator(shard.get("part", 0), shard.get("parts", 1))
     saved = hr.install(enum, [])
     try:
         ns = stage.shim()  # imported under the patched random module, so `from random import x` is caught too
         ss = ns.sequence_start
         saved2 = hr.install(enum, [ss])
         try:
-            if shard.get("sticky"):
+            if shard.get("cross"):
+                _run_cross(rec, ss)
+            elif shard.get("sticky"):
                 _run_sticky(shard, rec, ss, enum)
             else:
                 _run(shard, rec, ss, enum)
@@ -51,6 +54,37 @@ def run(shard, rec, tier, seed):
     finally:
         hr.uninstall(saved)
     assert real_random.randrange is not enum.randrange
+
+
+def _run_cross(rec, ss):
+    """What the peer does on receipt, for all three kinds in one process: the same wire components arrive as an INIT
+    pair, as a PING pair and as an ACCOUNT_REPLY value, in changing order; each from-values constructor must give a
+    start of its own class with its own formula's value (INIT: seq1*7 + seq2 - 13, PING: seq1 - seq2)."""
+    n = 0
+    for a in list(range(0, 253, 3)) + [252]:
+        for b in (0, 1, 2, 13, 100, 110, 251, 252, a):
+            if b > 252:
+                continue
+            order = [("init", ss.InitSequenceStart, "from_init_values", (a, b), a * 7 + b - 13),
+                     ("ping", ss.PingSequenceStart, "from_ping_values", (a, b), a - b),
+                     ("account", ss.AccountReplySequenceStart, "from_value", (a,), a)]
+            k = (a + b) % 3
+            order = order[k:] + order[:k]
+            for fn, cls, ctor, args, want in order + order[:1]:
+                n += 1
+                try:
+                    r = getattr(cls, ctor)(*args)
+                    ok = type(r) is cls and r.value == want and (fn == "account" or (r.seq1, r.seq2) == args)
+                    shown = (type(r).__name__, r.value)
+                except Exception as ex:
+                    ok, shown = False, repr(ex)
+                if not ok:
+                    rec.violation("reconstruct", "%s.%s%r gives %r, expected a %s with value %d (other kinds were rebuilt from the same numbers just before)" % (cls.__name__, ctor, args, shown, cls.__name__, want),
+                                  {"fn": fn, "args": list(args)})
+                    return
+    rec.case(("cross",), n=n)
+    rec.count("reconstruct", n)
+    rec.count("cross-kind-reconstructions", n)
 
 
 def _run_sticky(shard, rec, ss, enum):
